@@ -860,7 +860,9 @@ class TapeRecorder(object):
         with self._enter_interception_context():
             try:
                 result = func(*args, **kwargs)
-            except Exception as ex:
+            except BaseException as ex:  # pylint: disable=broad-except
+                # Not only Exception, the operation may handle an interrupt style exception (e.g. a timeout) of the
+                # intercepted function and carry on, without this entry the recording can't be played back
                 if interception_key is not None:
                     # Record exception marking it as exception so we know to throw on playback
                     self._record_interception(interception_key, {'exception': ex})
